@@ -42,4 +42,15 @@ def jobs(tier):
                  timeout=900 if q else 3600, mem_gb=6,
                  desc='one thread_migrate() (other thread / self, same / other vCPU) + the target\'s resume_threads(): the thread is in exactly one place, owner and nthreads follow, refused migrations move nothing',
                  bounds='2 vCPUs; caller + 2 threads on V, 1 running + <= 1 standby thread on U'))
+    DIE = '_photon_switch_context_defer_die'
+    # ORDER=1 (the joiner waits first: cond.wait(lock) -> cvar_do_wait with lock/unlock passed as function pointers) gave no verdict: SAT back end out of memory at 20 GB
+    # (930 k steps); it is not registered
+    # ORDER=0 (die first) also ran out of memory (22 GB, 340 k steps).  Both stay behind VERIF_EXPERIMENTAL: not part of any registered command.
+    import os
+    for order in ((0, 1) if os.environ.get('VERIF_EXPERIMENTAL') else ()):
+        J.append(Job('join_%s' % ('die_first' if order == 0 else 'join_first'), 'C05/h_life.cpp', 'harness_join', defines=['H_JOIN', 'ORDER=%d' % order, 'NV=3'], unwind=7, shims=['c04_heap.c', 'c05_stubs.c'],
+                     clang=LIFE_CLANG, ir2c=LIFE_IR2C + ['--map', '^@%s$=verif_die_switch' % DIE, '--map', '^@verif_call_die$=_photon_thread_die', '--unreachable-returns'], cbmc=['-DVERIF_DIE_RETURNS'],
+                     timeout=900 if q else 3600, mem_gb=8,
+                     desc='completion hand-shake, %s: real thread::die + thread_join; join returns the return value after DONE, the stack is released exactly once (by the join, or by a non-joinable thread itself), nthreads drops by one, no lost wake-up of the joiner' % ('the thread dies before the join' if order == 0 else 'the joiner waits first'),
+                     bounds='1 dying thread, 1 joiner, 0-1 bystander on one vCPU; %s' % ('joinable symbolic' if order == 0 else 'joinable')))
     return J
